@@ -27,7 +27,7 @@ def ChunkV.Valid (c : ChunkV) : Prop :=
   (boardOfDevice c.deviceId).isSome = true ∧ c.chip ≤ 3 ∧ c.flags ≤ 1 ∧ c.chunkId < 65536
     ∧ c.payload.length ≤ 65535
 
-instance (c : ChunkV) : Decidable c.Valid := by unfold ChunkV.Valid; infer_instance
+instance ChunkV.decValid (c : ChunkV) : Decidable c.Valid := by unfold ChunkV.Valid; infer_instance
 
 /-- `TryPwbPacketFromChunksError`. The payloads of the two mismatch variants (`found`,
 `expected`) depend on arrival order and are not modelled; all other payloads are. -/
